@@ -286,31 +286,101 @@ type TEv struct {
 	Next int   `json:"next"` // mcommit: NextSegmentID
 	BG   bool  `json:"bg"`   // issued by a background goroutine (rotation)
 	OpK  string `json:"opk"` // inv markers: kind of the API call
+	// for the stateful engine trace specification (spec/WalImplTrace.tla)
+	Segs   [][]int `json:"segs"`   // mcommit/mload: per listed segment <<id, base, min, max, sealed(0/1), indexStart>>
+	AFirst int     `json:"afirst"` // inv store: first index; ret: FirstIndex() observed (-1: not observed)
+	AN     int     `json:"an"`     // inv store: number of entries
+	ACons  bool    `json:"acons"`  // inv store: the indexes are consecutive
+	AMin   int     `json:"amin"`   // inv delete
+	AMax   int     `json:"amax"`   // inv delete
+	ALast  int     `json:"alast"`  // ret: LastIndex() observed (-1: not observed)
+	ARes   string  `json:"ares"`   // ret: ok | err | "" (not known)
+	Base   int     `json:"base"`   // create/unlink/openr/openw: BaseIndex parsed from the file name (-1: none)
+}
+
+func clampInt(v uint64) int {
+	if v > 1<<30 {
+		return 1<<30 + int(v%1000) // TLC integers are 32 bit
+	}
+	return int(v)
 }
 
 // Project converts a log into TLC events.
 func Project(log []Ev) []TEv {
 	out := make([]TEv, 0, len(log))
 	for _, e := range log {
-		t := TEv{Ev: "io", Seq: e.Seq, Call: e.Call, Name: e.Name, Chunks: []int{}, Res: e.Res, ID: -1, IDs: []int{}, BG: e.BG}
+		t := TEv{Ev: "io", Seq: e.Seq, Call: e.Call, Name: e.Name, Chunks: []int{}, Res: e.Res, ID: -1, IDs: []int{}, BG: e.BG, Base: -1}
 		if e.Name != "" {
 			var base, id uint64
 			if n, _ := fmt.Sscanf(e.Name, "%020d-%016x.wal", &base, &id); n == 2 {
 				t.ID = int(id)
+				t.Base = clampInt(base)
 			}
 		}
-		if e.Call == "mcommit" && e.Meta != nil {
+		t.Segs = [][]int{}
+		t.AFirst, t.ALast = -1, -1
+		if (e.Call == "mcommit" || e.Call == "mload") && e.Meta != nil {
 			for _, s := range e.Meta.Segments {
 				t.IDs = append(t.IDs, int(s.ID))
+				sealed := 0
+				if !s.SealTime.IsZero() {
+					sealed = 1
+				}
+				t.Segs = append(t.Segs, []int{int(s.ID), clampInt(s.BaseIndex), clampInt(s.MinIndex), clampInt(s.MaxIndex), sealed, clampInt(s.IndexStart)})
 			}
 			t.Next = int(e.Meta.NextSegmentID)
 		}
+		if e.Call == "list" {
+			for _, n := range e.Names {
+				var base, id uint64
+				if k, _ := fmt.Sscanf(n, "%020d-%016x.wal", &base, &id); k == 2 {
+					t.IDs = append(t.IDs, int(id))
+				}
+			}
+		}
 		if e.Call == "inv" {
 			var op struct {
-				Op string `json:"op"`
+				Op    string   `json:"op"`
+				First uint64   `json:"first"`
+				Idxs  []uint64 `json:"idxs"`
+				Cids  []int    `json:"cids"`
+				Min   uint64   `json:"min"`
+				Max   uint64   `json:"max"`
 			}
 			json.Unmarshal([]byte(e.Op), &op)
 			t.OpK = op.Op
+			if op.Op == "store" {
+				t.AFirst, t.AN, t.ACons = clampInt(op.First), len(op.Cids), true
+				for j := range op.Cids {
+					if j < len(op.Idxs) {
+						if j == 0 {
+							t.AFirst = clampInt(op.Idxs[0])
+						}
+						if op.Idxs[j] != op.Idxs[0]+uint64(j) {
+							t.ACons = false
+						}
+					}
+				}
+			}
+			if op.Op == "delete" {
+				t.AMin, t.AMax = clampInt(op.Min), clampInt(op.Max)
+			}
+		}
+		if e.Call == "ret" && e.Op != "" {
+			var rt struct {
+				Res   string `json:"res"`
+				First int64  `json:"first"`
+				Last  int64  `json:"last"`
+			}
+			if json.Unmarshal([]byte(e.Op), &rt) == nil {
+				t.ARes = rt.Res
+				if rt.First >= 0 {
+					t.AFirst = clampInt(uint64(rt.First))
+				}
+				if rt.Last >= 0 {
+					t.ALast = clampInt(uint64(rt.Last))
+				}
+			}
 		}
 		switch e.Call {
 		case "create":
